@@ -633,6 +633,12 @@ def find_body_open(text, start):
             ls = text.rfind("\n", 0, i) + 1
             if brace == 0 and text[ls:i].strip() == "":
                 return i
+            if brace == 0:
+                # a block on a spec line: expression inside the clause, or a one-line body?  Look at what follows it.
+                cb = match_close(text, i, "{", "}")
+                rest = text[cb + 1:].lstrip()
+                if not re.match(r"(,|&&|\|\||==>|<==|==|!=|[)\].?+\-*/<>]|else\b|by\b)", rest):
+                    return i
             brace += 1
         elif c == "}" and depth == 0 and in_spec:
             brace -= 1
